@@ -60,6 +60,7 @@ pub fn class_of(msg: &str) -> String {
 
 thread_local! {
     static LAST_PANIC: RefCell<Option<(String, String, String)>> = const { RefCell::new(None) };
+    static IN_RUN: std::cell::Cell<bool> = const { std::cell::Cell::new(false) };
 }
 
 fn strip_generics(s: &str) -> String {
@@ -186,6 +187,10 @@ pub fn install_panic_hook() {
                 }
             }
         };
+        if !IN_RUN.with(std::cell::Cell::get) {
+            // a panic outside a simulated run is a bug of the harness itself
+            eprintln!("HARNESS-ERROR panic outside a simulated run: {msg} at {loc}");
+        }
         LAST_PANIC.with(|p| *p.borrow_mut() = Some((msg, loc, func)));
     }));
 }
@@ -203,7 +208,9 @@ pub fn run_in_world<T>(world: World, f: impl FnOnce() -> T) -> (Option<T>, Optio
     gamedig::verif_hook::install(Box::new(SimBackend(rc.clone())));
     LAST_PANIC.with(|p| *p.borrow_mut() = None);
     alloc::begin();
+    IN_RUN.with(|c| c.set(true));
     let r = catch_unwind(AssertUnwindSafe(f));
+    IN_RUN.with(|c| c.set(false));
     let stats = alloc::end();
     drop(gamedig::verif_hook::uninstall());
     let world = match Rc::try_unwrap(rc) {
@@ -283,7 +290,9 @@ pub fn json_diff(exp: &Value, obs: &Value) -> Option<(String, String, String)> {
                 None
             }
             (Value::Number(a), Value::Number(b)) => {
-                if a == b || (a.as_f64().is_some() && a.as_f64() == b.as_f64()) {
+                // floats that went through a decimal f32 rendering compare as f32
+                let f32_same = a.is_f64() && b.is_f64() && a.as_f64().map(|x| x as f32) == b.as_f64().map(|x| x as f32);
+                if a == b || (a.as_f64().is_some() && a.as_f64() == b.as_f64()) || f32_same {
                     None
                 } else {
                     Some((path.to_string(), short(e), short(o)))
